@@ -30,7 +30,7 @@ def norm_case(draw):
             "target_exp": draw(st.integers(-6, 6)), "via": draw(st.sampled_from(["init", "setter"])),
             "warm": draw(st.sampled_from(["none", "norm", "orientation", "valid-norm"])),
             "vdims": draw(gen.vdims_strategy(k)), "unit": draw(st.sampled_from(gen.FIELD_UNITS)),
-            "mask": draw(gen.mask_spec(nd))}
+            "mask": draw(gen.mask_spec(nd)), "near_target": draw(st.integers(0, 4)) == 0}
 
 
 def make_vectors(case, seed_shift=0):
@@ -41,6 +41,9 @@ def make_vectors(case, seed_shift=0):
     dirs /= np.linalg.norm(dirs, axis=-1, keepdims=True)
     e = np.array(case["exps"])[rng.integers(0, len(case["exps"]), size=n)]
     lens = 10.0**e * rng.uniform(1, 9.9, size=n)
+    if case.get("near_target") and seed_shift == 0:
+        # all lengths within 1e-6 relative of the constant that will be requested as norm
+        lens = 1.5 * 10.0 ** case["target_exp"] * (1 + rng.uniform(-1e-6, 1e-6, size=n))
     zero = rng.random(n) < case["zero_frac"]
     lens[zero] = 0.0
     return dirs * lens[..., np.newaxis], lens, dirs
